@@ -55,6 +55,7 @@ func clip(s string, n int) string {
 }
 
 func New(std bool) *zygo.Zlisp {
+	zygo.VerifSetStepBudget(0) // construction runs setup scripts: never under a leftover budget
 	env := zygo.NewZlisp()
 	if std {
 		env.StandardSetup()
